@@ -12,6 +12,7 @@ mod c10;
 mod c11;
 mod c12;
 mod c13;
+mod c14;
 mod c20;
 
 fn main() {
@@ -106,6 +107,8 @@ fn main() {
     ("C12", None) => c12::run(&tier),
     ("C13", None) => c13::run(&tier),
     ("C13", Some(d)) => c13::replay(&d),
+    ("C14", None) => c14::run(&tier),
+    ("C14", Some(d)) => c14::replay(&d),
     ("C20", None) => c20::run(&tier),
     ("C20", Some(d)) => c20::replay(&d),
     ("C12", Some(d)) => c12::replay(&d),
